@@ -1109,7 +1109,7 @@ def run(tier, seed):
             with ThreadPoolExecutor(max_workers=16) as ex:
                 for s, txt in ex.map(ev, jobs):
                     for (j, a, m) in parse_failures(txt):
-                        failing.append((owner[s + j], a, m, terms[s + j][:12]))
+                        failing.append((owner[s + j], a, m, terms[s + j].split()[0]))
 
         kinds, outcomes = {}, {}
         for c, o in zip(cases, obs):
